@@ -16,31 +16,43 @@ RULE = ("(rt) fields on 1-4-d meshes (cell counts incl. 1, renamed dims, per-axi
         "tolerance factor), 1-4 components, float64/float32/int64/int32/complex128/complex64/bool data incl. NaN/inf/-0.0, "
         "labels default/custom/absent (vector) or present (scalar), through Field.to_xarray (name/unit arguments) and Field.from_xarray on the real DataArray "
         "with attrs complete, EVERY subset of cell/pmin/pmax removed, tolerance_factor / one coordinate's units / the label "
-        "coordinate / everything removed; exact regime (dyadic geometry: equality with the rational model) and tolerance regime "
+        "coordinate / everything removed; 40 % of these after a HISTORY of 1-3 in-place calls on field.mesh (translate; scale by scalar / "
+        "per-axis / negative factors about pmin, pmax or the default centre; calls the code must refuse: wrong length, factor 0) preceded by "
+        "one export: the model replays the history (T.stepM) from the state before it and its export is compared with the real one; "
+        "exact regime (dyadic geometry: equality with the rational model) and tolerance regime "
         "(scales 1e-12..1e6, offsets up to 1000 cells: 16u bound); (uneven) one coordinate shifted by 0.3/0.05/0.01 cell (clear "
-        "reject side of the relative spacing test rtol=1e-5) or 1e-8/1e-9 cell (clear accept side) at ALL scales 1e-12..1e6; (hand) hand-built DataArrays "
-        "(arange/int coordinates, missing coordinates, consistent or inconsistent attrs); (bad) missing/zero/negative/float/"
+        "reject side of the relative spacing test rtol=1e-5) or 1e-8/1e-9 cell (clear accept side) at ALL scales 1e-12..1e6 and offsets up to 1e7 cells; (hand) hand-built DataArrays "
+        "(arange/int coordinates, missing coordinates, consistent or inconsistent attrs, single-cell axes with/without cell, evenly spaced DESCENDING "
+        "coordinates, labels that are attribute names of Field); (bad) missing/zero/negative/float/"
         "numpy nvdim, vector without vdims axis, non-DataArray argument, wrong/scaled cell, shifted pmax, swapped corners, "
-        "duplicate labels, nvdim != axis length, transposed axes, dropped coordinate, dimension called 'vdims', non-string "
-        "name/unit arguments. Oracle on the real code: coordinates == cell centres (exact Fractions) inside their own cell with "
+        "duplicate labels, a label naming a method/property of Field, nvdim != axis length, transposed axes, dropped coordinate, dimension called 'vdims', non-string "
+        "name/unit arguments, a cell size that rounds to zero cells >= 1e15 cells from the origin. Oracle on the real code: coordinates == cell centres (exact Fractions) of the mesh as it is at export time, inside their own cell, with "
         "the region's units, label coordinate == labels, attrs == cell/pmin/pmax/nvdim/unit/tolerance; import(export(f)) == f in "
         "corners, n, dims, units, tolerance, every value token, labels, dtype; rebuilt mesh == original when n>=2 per axis or "
         "cell kept; single-cell axis without cell rejected; uneven (relative unevenness > 1e-3), missing nvdim, nvdim<1, vector "
         "without vdims axis, non-DataArray rejected. non-trivial = at least 2 cells, non-constant data, import succeeded")
 TRUSTED = ["harness/c17.py, harness/fieldio.py + driver JSON glue (values travel as opaque repr tokens)",
            "xarray.DataArray as a container (dims, coords, attrs, default integer index for a dimension without coordinate)",
-           "np.linspace / np.diff / mean / np.allclose / np.full broadcasting modelled by contract"]
-ASSUMPTIONS = ["exact regime: dyadic corners and cells, every binary64 operation on the code path (linspace, diff, mean, c/2) is "
-               "exact, equality demanded; tolerance regime: model computes on the exact rationals of the floats the code sees, "
-               "continuous outputs within 16*2^-53*max(|pmin|,|pmax|,edge)",
-               "component labels never collide with Field attribute names (the vdims setter's hasattr test is not modelled); "
-               "label coordinates are strings, dimension coordinates numeric",
+           "np.linspace / np.diff / mean / np.allclose / np.full broadcasting modelled by contract",
+           "hasattr(field, label) is answered by the real class for the labels of each request (the model is parametric in the set "
+           "of attribute names of Field; its theorems hold for every such set)"]
+ASSUMPTIONS = ["exact regime: dyadic corners and cells, every binary64 operation on the code path (linspace, diff, mean, c/2, the in-place "
+               "translate/scale arithmetic) is exact, equality demanded; tolerance regime: model computes on the exact rationals of "
+               "the floats the code sees, continuous outputs within 16*2^-53*max(|pmin|,|pmax|,edge)",
+               "label coordinates are strings, dimension coordinates numeric; the default labels x, y, z, v0, v1, ... are not attribute "
+               "names of Field (hypothesis hdef of import_wf; asserted on the real class when the module is loaded)",
+               "in-place histories consist of Mesh.translate / Mesh.scale on a mesh without subregions (a quarter turn of field.mesh in "
+               "place changes the cell counts under the field's array and is not a state the property speaks about)",
                "cases whose largest spacing deviation is within a factor 3.3 of the spacing threshold 1e-5*|mean| are not compared "
                "(incidental threshold)"]
-UNPROVED = ["labels of a vector field WITHOUT labels (vdims=[]) are not preserved: the importer assigns the defaults "
-            "(xa_roundtrip_unlabelled proves this of the model; finding D81)",
-            "unit, validity mask, bc, subregions and vdim_mapping are not restored by from_xarray (not in the property's list; "
-            "observation)"]
+UNPROVED = ["labels of a vector field WITHOUT labels (vdims=[]) and of a scalar field WITH a label are not preserved: the importer "
+            "assigns the constructor defaults (xa_roundtrip_unlabelled / xa_roundtrip_labels_iff prove exactly this of the model; finding D81)",
+            "unit, validity mask, bc, subregions and vdim_mapping are not restored by from_xarray (xa_not_restored; not in the property's list)",
+            "binary64 rounding of linspace / diff / mean / c/2 is not modelled: theorems are over Q, the tolerance regime of the "
+            "correspondence run (16u bound) stands in; the spacing threshold itself (rtol 1e-5) is exact in the model, cases within a "
+            "factor 3.3 of it are not compared",
+            "hand-built DataArrays with complete attributes: the coordinate values are never used (attrs_override_coordinates), so "
+            "descending coordinates are accepted without reordering the data - an observation about the code, outside the property's statement"]
 BUDGET = {"quick": 85, "thorough": 800}
 
 U = Fraction(1, 2 ** 53)
@@ -48,8 +60,32 @@ DIMS = ["x", "y", "z", "a", "b", "c", "u", "v", "w", "t", "xx", "r0", "dim_1", "
 UNITS = ["m", "nm", "um", "s", "rad", "1/m"]
 LABELS = [c for c in ["a", "b", "c", "d", "mx", "my", "mz", "p", "q", "α", "v_1", "x", "y", "z", "x1", "vx", "None"]
           if not hasattr(df.Field, c)]
+RESERVED = [c for c in ["mesh", "array", "norm", "valid", "unit", "mean", "to_xarray", "nvdim", "vdims", "dtype", "_array", "_mesh",
+                         "__class__", "__eq__", "allclose", "plane", "diff"] if hasattr(df.Field, c) or c.startswith("_")]
 DTYPES = ["float64", "float64", "float64", "float32", "int64", "int32", "complex128", "complex64", "bool"]
 GEOM_ATTRS = ("cell", "pmin", "pmax")
+
+
+# --------------------------------------------------------------------------- the class's attribute names
+_F0 = []
+
+
+def field_has(c):
+    """hasattr(field, c) as the vdims setter asks it on the object under construction (no labels yet, so the dynamic
+    component access of __getattr__ finds nothing): is c a method / property / slot of Field?"""
+    if not _F0:
+        _F0.append(df.Field(df.Mesh(p1=0, p2=1, n=1), nvdim=1))
+    return hasattr(_F0[0], str(c))
+
+
+def attrs_of(labels):
+    """the answers the model's FieldAttrs parameter is instantiated with: which of these labels are attribute names"""
+    return sorted({str(c) for c in (labels or []) if field_has(c)})
+
+
+# hypothesis `hdef` of import_wf / import_export_import: the constructor's default labels are not attributes of Field
+assert not any(field_has(c) for c in ["x", "y", "z"] + [f"v{i}" for i in range(64)]), "a default label is an attribute of Field"
+assert all(field_has(c) for c in RESERVED), "RESERVED contains a name that is not an attribute of Field"
 
 
 # --------------------------------------------------------------------------- canonical forms
@@ -143,6 +179,40 @@ def gen_fieldspec(rng, geom, allow_unlabelled=True):
                 special=rng.random() < 0.15, mask=rng.random() < 0.3)
 
 
+def gen_meshop(rng, g, regime):
+    """one in-place call on field.mesh: translate / scale (scalar or per-axis factor, also negative; reference point pmin,
+    the centre (None) or a lattice point) / a call the code must refuse without changing anything (wrong length, factor 0)"""
+    nd = len(g["n"])
+    r = rng.random()
+    if r < 0.35:
+        return dict(op="translate", v=[rng.randint(-6, 6) * (1 if regime == "exact" else 1.37) for _ in range(nd)])
+    if r < 0.85:
+        fac = rng.choice([2.0, 0.5, 4.0, -2.0, -1.0]) if rng.random() < 0.5 else [rng.choice([2.0, 0.5, 1.0, 8.0, -2.0, -0.5]) for _ in range(nd)]
+        return dict(op="scale", f=fac, ref=rng.choice(["pmin", "pmin", "centre", "pmax"]))
+    return rng.choice([dict(op="translate", v=[1.0] * (nd + 1)), dict(op="scale", f=0.0, ref="centre"),
+                       dict(op="scale", f=[2.0] * (nd + 1), ref="pmin")])
+
+
+def apply_meshop(f, op, regime):
+    """runs the call on the real field's mesh; returns the request for the model with the exact arguments the code received
+    (None for the reference point = the code's default)"""
+    if op["op"] == "translate":
+        v = [float(x) for x in op["v"]]
+        if regime != "exact" and len(v) == f.mesh.region.ndim:
+            v = [x * float(c) for x, c in zip(v, f.mesh.cell)]
+        req = dict(op="translate", v=Qs(v))
+        call = lambda: f.mesh.translate(v, inplace=True)          # noqa: E731
+    else:
+        ref = None if op["ref"] == "centre" else [float(x) for x in getattr(f.mesh.region, op["ref"])]
+        req = dict(op="scale", f=(Qs(op["f"]) if isinstance(op["f"], list) else Q(op["f"])), ref=(None if ref is None else Qs(ref)))
+        call = lambda: f.mesh.scale(op["f"], reference_point=ref, inplace=True)   # noqa: E731
+    try:
+        call()
+        return req, None
+    except Exception as e:  # noqa: BLE001 — a refused call must leave the mesh as it was (checked against the model)
+        return req, type(e).__name__
+
+
 def build_field(geom, fs, sub):
     rng = random.Random(sub)
     kw = {}
@@ -191,10 +261,8 @@ def _streams(rng, tier):
         for _ in range(cnt):
             g = gen_geom(rng, tier, regime)
             pre = None
-            if rng.random() < 0.35:      # history: export once, change the mesh in place, then run the whole case on the changed field
-                pre = rng.choice([dict(op="translate", v=[rng.randint(-6, 6) * (1 if regime == "exact" else 1.37) for _ in g["n"]]),
-                                  dict(op="scale", f=rng.choice([2.0, 0.5, 4.0])),
-                                  dict(op="scale", f=[rng.choice([2.0, 0.5, 1.0, 8.0]) for _ in g["n"]])])
+            if rng.random() < 0.4:       # history: export once, change the mesh in place (1-3 calls), then run the whole case on the changed field
+                pre = [gen_meshop(rng, g, regime) for _ in range(rng.choice([1, 1, 2, 3]))]
             yield dict(kind="rt", geom=g, fs=gen_fieldspec(rng, g), sub=rng.getrandbits(32), pre=pre,
                        name=rng.choice([None, None, "m", "field_1"]), unit=rng.choice([None, None, "T", ""]))
 
@@ -213,7 +281,7 @@ def _streams(rng, tier):
     def bad(cnt):
         muts = ["no_nvdim", "nvdim_lt1", "nvdim_float", "nvdim_npint", "no_vdims_dim", "not_dataarray", "cell_len", "cell_scaled",
                 "pmax_shift", "swap_corners", "dup_labels", "nvdim_mismatch", "scalar_with_vdims_dim", "transpose", "drop_coord",
-                "dim_named_vdims", "export_badargs", "pmin_only_single"]
+                "dim_named_vdims", "export_badargs", "pmin_only_single", "cell_rounds_to_zero", "reserved_label"]
         for i in range(cnt):
             g = gen_geom(rng, tier, "exact")
             yield dict(kind="bad", geom=g, fs=gen_fieldspec(rng, g, False), sub=rng.getrandbits(32), mut=muts[i % len(muts)])
@@ -354,13 +422,16 @@ def run_rt(case, obs, fail):
     regime = geom["regime"]
     pre = case.get("pre")
     if pre:
+        if isinstance(pre, dict):                    # (corpus cases written before histories were lists)
+            pre = [dict(op="translate", v=pre["v"]) if pre["op"] == "translate" else dict(op="scale", f=pre["f"], ref="pmin")]
         f.to_xarray()
-        cell0 = f.mesh.cell.copy()
-        if pre["op"] == "translate":
-            f.mesh.translate([v * c for v, c in zip(pre["v"], cell0)] if regime != "exact" else pre["v"], inplace=True)
-        else:
-            f.mesh.scale(pre["f"], reference_point=f.mesh.region.pmin, inplace=True)
-        obs["tags"].append("pre:" + pre["op"])
+        obs["field0"] = field_json(f)
+        obs["hist"], refused = [], 0
+        for op in pre:
+            req, err = apply_meshop(f, op, regime)
+            obs["hist"].append(req)
+            refused += err is not None
+        obs["tags"] += ["pre:" + "+".join(op["op"] for op in pre), f"pre-refused:{refused}"]
     bnd = bound(f, regime)
     obs["field"] = field_json(f)
     xa = export(f, case)
@@ -493,12 +564,17 @@ def run_hand(case, obs, fail):
             continue
         vals = [v0[a] + j * h[a] for j in range(n[a])]
         coords[d] = np.array([int(v) for v in vals]) if integer else np.array([float(v) for v in vals])
+    desc = [d for d in coords if rng.random() < 0.06]    # evenly spaced but DESCENDING coordinates (model vs code only):
+    for d in desc:                                       # refused without cell, taken unreordered with complete attrs
+        coords[d] = coords[d][::-1].copy()
     shape = tuple(n) + ((nv,) if nv > 1 else ())
     data = np.array([rng.randint(-50, 50) / 2 for _ in range(int(np.prod(shape)))]).reshape(shape)
     xdims = dims + (["vdims"] if nv > 1 else [])
     labels = None
     if nv > 1 and rng.random() < 0.6:
         labels = rng.sample(LABELS, nv)
+        if rng.random() < 0.08:
+            labels[rng.randrange(nv)] = rng.choice(RESERVED)     # refused by the vdims setter (model vs code only)
         coords["vdims"] = labels
     attrs = dict(nvdim=nv)
     lo = [v0[a] - h[a] / 2 for a in range(ndim)]
@@ -518,7 +594,11 @@ def run_hand(case, obs, fail):
             xa[d].attrs["units"] = rng.choice(UNITS)
     g, err = rec_import(obs, "hand", xa)
     single = any(k == 1 for k in n)
-    if mode in ("none", "consistent", "cell", "p"):
+    if labels is not None and attrs_of(labels):
+        obs["tags"].append("reserved-label")
+    elif desc:
+        obs["tags"].append("descending:" + ("accepted" if g is not None else "rejected"))
+    elif mode in ("none", "consistent", "cell", "p"):
         if single and "cell" not in attrs:
             if g is not None:
                 fail(f"single-cell axis (n={n}) without cell attribute accepted")
@@ -545,7 +625,7 @@ def run_hand(case, obs, fail):
 def run_bad(case, obs, fail):
     geom, fs, mut = case["geom"], case["fs"], case["mut"]
     rng = random.Random(case["sub"] ^ 0xBAD)
-    if mut in ("no_vdims_dim", "dup_labels", "nvdim_mismatch", "transpose") and fs["nvdim"] == 1:
+    if mut in ("no_vdims_dim", "dup_labels", "nvdim_mismatch", "transpose", "reserved_label") and fs["nvdim"] == 1:
         fs = dict(fs, nvdim=3, labels=None)
     if mut == "scalar_with_vdims_dim" and fs["nvdim"] == 1:
         fs = dict(fs, nvdim=2, labels=None)
@@ -621,6 +701,18 @@ def run_bad(case, obs, fail):
         pass
     elif mut == "pmin_only_single":
         xa = strip(xa, rng.choice([("pmin",), ("pmax",), ("pmin", "pmax")]))
+    elif mut == "reserved_label":
+        # a label that is the name of a method / property / slot of Field: refused by the vdims setter's hasattr test
+        lab = [str(v) for v in xa["vdims"].values] if "vdims" in xa.coords else rng.sample(LABELS, f.nvdim)
+        lab[rng.randrange(len(lab))] = rng.choice(RESERVED)
+        xa = xa.assign_coords(vdims=lab)
+    elif mut == "cell_rounds_to_zero":
+        # >= 1e15 cells from the origin the tolerant containment test of Mesh.__init__ lets a cell much larger than the
+        # region through; round(edge / cell) = 0 is then refused by the constructor's last test (n >= 1).  All
+        # thresholds on the way (1e-12 containment, 0.1 % divisibility) are passed with a margin >= 2.
+        lo, w, c = rng.choice([(1e15, 0.125, 512.0), (1e16, 2.0, 4096.0), (1e17, 16.0, 32768.0), (-1e16, 2.0, 4096.0)])
+        xa = xr.DataArray(np.zeros((1,)), dims=["x"], coords={"x": [lo]}, name="far",
+                          attrs=dict(nvdim=1, cell=[c], pmin=[lo], pmax=[lo + w]))
     g, err = rec_import(obs, mut, xa, other=other)
     if must_reject and g is not None:
         fail(f"{mut}: accepted (must be rejected)")
@@ -644,7 +736,14 @@ def run_impl(case):
 def model_requests(case, obs):
     reqs = []
     if "xa" in obs:
-        r = dict(op="export", field=obs["field"])
+        r = dict(op="export", field=obs["field"], attrs=attrs_of(obs["field"]["vdims"]))
+        if case.get("name") is not None:
+            r["name"] = case["name"]
+        if case.get("unit") is not None:
+            r["unit"] = case["unit"]
+        reqs.append(r)
+    if "hist" in obs:
+        r = dict(op="export_hist", field=obs["field0"], ops=obs["hist"], attrs=attrs_of(obs["field0"]["vdims"]))
         if case.get("name") is not None:
             r["name"] = case["name"]
         if case.get("unit") is not None:
@@ -653,7 +752,7 @@ def model_requests(case, obs):
     if "export_args" in obs:
         reqs.append(dict(op="export", field=obs["field"], **obs["export_args"]))
     for imp in obs["imports"]:
-        reqs.append(dict(op="import", xa=imp["xa"]) if imp["xa"] is not None else dict(op="import"))
+        reqs.append(dict(op="import", xa=imp["xa"], attrs=attrs_of(imp["xa"]["vdims"])) if imp["xa"] is not None else dict(op="import"))
     return reqs
 
 
@@ -739,6 +838,17 @@ def compare(case, obs, rs):
             if r.get("wf") is not True:
                 dis.append("the real field does not satisfy the model's well-formedness predicate (hypothesis of the theorems)")
             cmp_xa(obs["xa"], r["ok"], bnd, dis)
+    if "hist" in obs:       # the model's in-place calls on the mesh (T.stepM) followed by the model's export vs the real export
+        r = rs[pos]
+        pos += 1
+        if "ok" not in r:
+            dis.append(f"export after in-place history {obs['hist']}: impl ok vs model {r}")
+        else:
+            if r.get("wf") is not True:
+                dis.append("the model's field after the in-place history is not well-formed")
+            tmp = []
+            cmp_xa(obs["xa"], r["ok"], bnd, tmp)
+            dis += [f"after the in-place history {obs['hist']}: {d}" for d in tmp]
     if "export_args" in obs:
         r = rs[pos]
         pos += 1
